@@ -191,6 +191,21 @@ theorem every_unstyled_element_draws (dc : Option (List Char)) (o : Obj) (ho : o
   · obtain ⟨hk, ha⟩ := C18_use_rejection_partial tables o _ hu
     exact .inr ⟨he, hk, D, hD, ha⟩
 
+
+/-- **… and with style overrides**: every element whose overrides obey the rules the table entries obey (a marker only on
+an edge or circle and naming a factory; no marker under a `text_` key; a stroke on an edge or circle parses as a colour —
+the decidable `overridePlainOK`, which the driver evaluates on every generated case) draws, for every diagram class and
+style class, or is the `rx`/`ry` rejection. Classes whose name contains "symbol" (`get_style` returns `{}`) are left out
+when there are overrides. -/
+theorem every_styled_element_draws (dc : Option (List Char)) (o : Obj)
+    (hov : o.style.all (overridePlainOK markerRows (isEdgeType o.kind)) = true)
+    (hns : o.style = [] ∨ isInfixOfB "symbol".toList ((styleType o.kind ++ '.' :: o.cls).map lowerChar) = false) :
+    (∃ d, drawObject tables dc o = .ok d) ∨
+    (drawObject tables dc o = .error .invalidAttribute ∧ o.kind = .symbol) := by
+  rcases styled_draws tables_plain dc o (overridePlainOK_ok hov) hns with h | ⟨he, D, _, hu⟩
+  · exact .inl h
+  · exact .inr ⟨he, (C18_use_rejection_partial tables o _ hu).1⟩
+
 /-- the exact rows of the style table that can make that happen: the only entries with `rx`/`ry` -/
 theorem rx_ry_rows :
     (styleEntries.filter fun e => e.props.any fun p => p.1 = rxKey || p.1 = ryKey).map (fun e => (e.dc, e.oc)) =
